@@ -268,6 +268,50 @@ def _falls_through(stmts):
     return True
 
 
+def _pure_callee(f):
+    """Evaluating the callee expression itself does nothing (a name, an attribute of a name / constant, a method of a constant)."""
+    if isinstance(f, ast.Name):
+        return True
+    if isinstance(f, ast.Attribute):
+        v = f.value
+        while isinstance(v, ast.Attribute):
+            v = v.value
+        return isinstance(v, (ast.Name, ast.Constant))
+    return False
+
+
+def _first_evaluated(e):
+    """[(node, parent, field, index)]: the sub-expressions of e that are evaluated before anything else of e with an effect, outermost
+    first (each is the first thing its parent evaluates)."""
+    out = []
+    cur = e
+    while True:
+        nxt = None
+        if isinstance(cur, ast.UnaryOp):
+            nxt = (cur.operand, cur, "operand", None)
+        elif isinstance(cur, ast.Compare):
+            nxt = (cur.left, cur, "left", None)
+        elif isinstance(cur, ast.BoolOp):
+            nxt = (cur.values[0], cur, "values", 0)
+        elif isinstance(cur, ast.BinOp):
+            nxt = (cur.left, cur, "left", None)
+        elif isinstance(cur, ast.IfExp):
+            nxt = (cur.test, cur, "test", None)
+        elif isinstance(cur, (ast.Attribute, ast.Subscript, ast.Starred)):
+            nxt = (cur.value, cur, "value", None)
+        elif isinstance(cur, (ast.Tuple, ast.List)) and cur.elts:
+            nxt = (cur.elts[0], cur, "elts", 0)
+        elif isinstance(cur, ast.Call):
+            if isinstance(cur.func, ast.Attribute) and not _pure_callee(cur.func):
+                nxt = (cur.func.value, cur.func, "value", None)
+            elif _pure_callee(cur.func) and cur.args:
+                nxt = (cur.args[0], cur, "args", 0)
+        if nxt is None:
+            return out
+        out.append(nxt)
+        cur = nxt[0]
+
+
 class Inliner:
     def __init__(self, resolve, max_depth=3):
         self.resolve = resolve  # (call, caller Func) -> helper Func or None
@@ -287,6 +331,8 @@ class Inliner:
             return st.value, "expr"
         if isinstance(st, ast.Return) and isinstance(st.value, ast.Call):
             return st.value, "return"
+        if isinstance(st, ast.Raise) and isinstance(st.exc, ast.Call) and st.cause is None:
+            return st.exc, "raise"  # `raise self.__error(...)`: what the helper returns is raised where it returns it
         if isinstance(st, ast.Assign) and isinstance(st.value, ast.Call):
             if len(st.targets) == 1 and isinstance(st.targets[0], ast.Name):
                 return st.value, "assign"
@@ -309,17 +355,20 @@ class Inliner:
         return None, None
 
     def run(self, func):
-        self._comprehensions(func)
-        c0 = self.count
-        self._expressions(func)
-        if self.count != c0:
-            relink(func.node, getattr(func.node, "_parent", None))
-        before = self.count
-        self._block_owner(func.node, func, 0)
-        if self.count != before:
-            # bodies copied in from helpers bring their own calls of single-expression helpers
-            relink(func.node, getattr(func.node, "_parent", None))
+        # bodies copied in from helpers bring their own comprehensions and calls of helpers: repeat until nothing changes
+        for _ in range(3):
+            start = self.count
+            nseq = self.seq
+            self._comprehensions(func)
+            c0 = self.count
             self._expressions(func)
+            if self.count != c0:
+                relink(func.node, getattr(func.node, "_parent", None))
+            self._block_owner(func.node, func, 0)
+            if self.count != c0:
+                relink(func.node, getattr(func.node, "_parent", None))
+            if self.count == start and self.seq == nseq:
+                break
         return self.count
 
     def _comprehensions(self, func):
@@ -341,6 +390,24 @@ class Inliner:
                     comp = st.value
                 elif isinstance(st, ast.Assign) and len(st.targets) == 1 and isinstance(st.targets[0], ast.Name) and isinstance(st.value, ast.ListComp):
                     comp = st.value
+                elif isinstance(st, (ast.Expr, ast.Assign, ast.Return)) and st.value is not None and not (
+                        isinstance(st, ast.Assign) and not all(isinstance(t, ast.Name) for t in st.targets)):
+                    # `target.write("[{}]".format(", ".join([helper(v) for v in value])))`: the list is the first thing evaluated, and
+                    # whoever receives it reads all of it at once: it can be built in a statement of its own just before
+                    for node, par, fld, idx in _first_evaluated(st.value):
+                        if isinstance(node, (ast.ListComp, ast.GeneratorExp)) and len(node.generators) == 1 and not node.generators[0].is_async \
+                                and isinstance(node.elt, ast.Call) and me.resolve(node.elt, func) is not None \
+                                and isinstance(par, ast.Call) and isinstance(par.func, ast.Attribute) and par.func.attr == "join":
+                            me.seq += 1
+                            acc = "items_%d" % me.seq
+                            lc = ast.ListComp(elt=node.elt, generators=node.generators)
+                            pre_st = ast.copy_location(ast.Assign(targets=[ast.Name(id=acc, ctx=ast.Store())], value=lc), st)
+                            ast.fix_missing_locations(pre_st)
+                            getattr(par, fld)[idx] = ast.copy_location(ast.Name(id=acc, ctx=ast.Load()), node)
+                            out.extend(block([pre_st]))
+                            break
+                        if isinstance(node, ast.Call) and not _pure_callee(node.func):
+                            break
                 if comp is None or len(comp.generators) != 1 or comp.generators[0].is_async or not isinstance(comp.elt, ast.Call) \
                         or me.resolve(comp.elt, func) is None:
                     out.append(st)
@@ -464,6 +531,19 @@ class Inliner:
                 if mode2 == "arg0" and self.resolve(call2, func) is not None:
                     call, mode = call2, mode2
                     h = self.resolve(call, func)
+            if h is None and depth < self.max_depth and isinstance(st, (ast.Expr, ast.Assign, ast.Return, ast.If)) and not isinstance(st, InlineBlock):
+                # the helper call is the first thing the statement's expression evaluates (`failed = not self.__accept(...)`)
+                root = st.test if isinstance(st, ast.If) else st.value
+                if root is not None and not (isinstance(st, ast.Assign) and not all(isinstance(t, ast.Name) for t in st.targets)):
+                    for node, par, fld, idx in _first_evaluated(root):
+                        if isinstance(node, ast.Call):
+                            hh = self.resolve(node, func)
+                            if hh is not None:
+                                call, mode, h = node, "deep", hh
+                                self._deep = (par, fld, idx)
+                                break
+                            if not _pure_callee(node.func):
+                                break
             if h is not None and h is not func and _inlinable(h) and not (mode == "expr" and _effect_free(h)):
                 follow = None
                 if mode == "assign" and i + 1 < len(stmts) and isinstance(stmts[i + 1], ast.If):
@@ -590,6 +670,11 @@ class Inliner:
             if _falls_through(new):
                 new = new + [ast.Return(value=ast.Constant(value=None))]
             rep = pre + new
+        elif mode == "raise":
+            new = _replace_returns(body, lambda v: [ast.Raise(exc=v if v is not None else ast.Constant(value=None), cause=None)])
+            if _falls_through(body):
+                new = new + [ast.Raise(exc=ast.Constant(value=None), cause=None)]
+            rep = pre + new
         else:
             tnames = None
             if mode == "assign":
@@ -598,7 +683,7 @@ class Inliner:
             elif mode == "tuple":
                 tnames = [t.id for t in st.targets[0].elts]
                 res = "%s_ret" % tag
-            elif mode in ("value", "test", "iter", "arg0"):
+            elif mode in ("value", "test", "iter", "arg0", "deep"):
                 res = "%s_ret" % tag
             # the statement that tests the result right away (`if helper():` / `x = helper()` + `if x is None:`): a return of a
             # constant decides that test, so the decided branch is executed at the return site (keeps "this exit <=> that outcome")
@@ -677,6 +762,15 @@ class Inliner:
                 rep.append(st)
             elif mode == "arg0":
                 st.value.args[0] = ast.Name(id=res, ctx=ast.Load())
+                rep.append(st)
+            elif mode == "deep":
+                par, fld, idx = self._deep
+                nm = ast.Name(id=res, ctx=ast.Load())
+                if idx is None:
+                    setattr(par, fld, nm)
+                else:
+                    getattr(par, fld)[idx] = nm
+                self._block_owner(st, func, 0)
                 rep.append(st)
             elif mode == "iter":
                 st.iter = ast.Name(id=res, ctx=ast.Load())
@@ -796,6 +890,11 @@ def _is_path(e, depth=0):
             and all(isinstance(a, ast.Constant) for a in e.args):
         # m.group(1): a match object never changes, the accessor reads the same thing wherever it is written
         return isinstance(e.func.value, ast.Name) or _is_path(e.func.value, depth + 1)
+    if isinstance(e, ast.BinOp) and isinstance(e.op, (ast.Add, ast.Sub)) and depth == 0:
+        # len(path) - 1, path + 1: arithmetic on what a path holds
+        sides = [e.left, e.right]
+        return all(isinstance(x, ast.Constant) and isinstance(x.value, int) or _is_path(x, 0) for x in sides) \
+            and any(not isinstance(x, ast.Constant) for x in sides)
     if isinstance(e, ast.Tuple) and e.elts and depth == 0:
         # a tuple of class references (isinstance second operand)
         return all(isinstance(x, ast.Name) or (isinstance(x, ast.Attribute) and isinstance(x.value, ast.Name)) for x in e.elts) \
@@ -957,6 +1056,23 @@ def _class_ref(e):
     return isinstance(e, ast.Attribute) and isinstance(e.value, ast.Name) and e.attr[:1].isupper()
 
 
+def _only_compared(tree, name):
+    """Every read of the module-level list `name` is an operand of a comparison / membership test or the source of an iteration:
+    nothing can get hold of the object to change it, so it is as good as a literal at each of these places."""
+    relink(tree, None)
+    n_loads = 0
+    for n in ast.walk(tree):
+        if isinstance(n, ast.Name) and n.id == name and isinstance(n.ctx, ast.Load):
+            n_loads += 1
+            p = getattr(n, "_parent", None)
+            if isinstance(p, ast.Compare):
+                continue
+            if isinstance(p, (ast.For, ast.comprehension)) and p.iter is n:
+                continue
+            return False
+    return n_loads > 0
+
+
 def inline_constants(module, known_names):
     """Module-level names bound once to an immutable literal (string, bytes, number, tuple of those or of class references, a pattern
     compiled from constants), not known to the rule set, are replaced by their value wherever they are read.  `f(*CONST)` with a
@@ -994,7 +1110,8 @@ def inline_constants(module, known_names):
                 continue
             if nm.startswith("__") and nm.endswith("__"):
                 continue
-            if _immutable_literal(vals[0], consts, defs):
+            if _immutable_literal(vals[0], consts, defs) or (
+                    isinstance(vals[0], ast.List) and all(isinstance(x, ast.Constant) for x in vals[0].elts) and _only_compared(tree, nm)):
                 consts[nm] = vals[0]
                 changed = True
     if not consts:
@@ -1804,6 +1921,74 @@ def lift_conditionals(func_node):
                 node = ast.copy_location(ast.If(test=v.test, body=mk(v.body), orelse=mk(v.orelse)), st)
                 count[0] += 1
                 out.append(node)
+                continue
+            out.append(st)
+        return out
+    func_node.body = block(func_node.body)
+    if count[0]:
+        relink(func_node, getattr(func_node, "_parent", None))
+    return count[0]
+
+
+def strip_annotations(func_node):
+    """`x: T = v` -> `x = v`, `x: T` -> nothing, inside function bodies (an annotation there has no run-time meaning for the rules:
+    the statement is an assignment like any other).  Returns the number of rewritten statements."""
+    count = [0]
+
+    def block(stmts):
+        out = []
+        for st in stmts:
+            if isinstance(st, (ast.FunctionDef, ast.AsyncFunctionDef, ast.ClassDef)):
+                out.append(st)
+                continue
+            for owner, fld, lst in _stmt_lists(st):
+                setattr(owner, fld, block(lst))
+            if isinstance(st, ast.AnnAssign):
+                count[0] += 1
+                if st.value is None:
+                    out.append(ast.copy_location(ast.Pass(), st))
+                else:
+                    out.append(ast.copy_location(ast.Assign(targets=[st.target], value=st.value), st))
+                continue
+            out.append(st)
+        return out
+    func_node.body = block(func_node.body)
+    if count[0]:
+        relink(func_node, getattr(func_node, "_parent", None))
+    return count[0]
+
+
+def drop_logging(func_node, loggers):
+    """Statements `logger.debug(...)` / `.info` / `.warning` ... on a module-level logging.getLogger() object whose arguments only
+    read (names, attributes, constants, pure conversions) are dropped: what they print is no part of any property, and they cannot
+    change what the function does.  Returns the number of dropped statements."""
+    count = [0]
+    LEVELS = {"debug", "info", "warning", "warn", "error", "critical", "exception", "log"}
+
+    def readonly(e):
+        if isinstance(e, (ast.Constant, ast.Name)):
+            return True
+        if isinstance(e, ast.Attribute):
+            return readonly(e.value)
+        if isinstance(e, ast.Subscript):
+            return readonly(e.value) and readonly(e.slice)
+        if isinstance(e, (ast.Tuple, ast.List)):
+            return all(readonly(x) for x in e.elts)
+        return _pure_expr(e)
+
+    def block(stmts):
+        out = []
+        for st in stmts:
+            if isinstance(st, (ast.FunctionDef, ast.AsyncFunctionDef, ast.ClassDef)):
+                out.append(st)
+                continue
+            for owner, fld, lst in _stmt_lists(st):
+                setattr(owner, fld, block(lst))
+            if isinstance(st, ast.Expr) and isinstance(st.value, ast.Call) and isinstance(st.value.func, ast.Attribute) \
+                    and st.value.func.attr in LEVELS and isinstance(st.value.func.value, ast.Name) and st.value.func.value.id in loggers \
+                    and all(readonly(a) for a in st.value.args) and all(readonly(k.value) for k in st.value.keywords):
+                count[0] += 1
+                out.append(ast.copy_location(ast.Pass(), st))
                 continue
             out.append(st)
         return out
